@@ -85,23 +85,7 @@ def argument_has_side_effect(stmts):
 
 
 def classify(small, where):
-    kinds = fc.interesting_kinds(small)
-    if argument_has_side_effect(small) and not any(k in kinds for k in ("closure", "map_keys", "map_values", "filter", "for_each")):
-        # upstream issue 13752: every argument is type-checked against the state *before* the call,
-        # so a side effect in one argument is invisible to the others
-        return "fail:%s:argument_side_effect" % where.split(":")[0]
-    if any(k in kinds for k in ("closure", "map_keys", "map_values", "filter", "for_each")):
-        return "fail:%s:closure" % where.split(":")[0]
-    if closure_has_side_effect(small):
-        # one root cause (closure bodies are typed as if they ran exactly once / their effects on the
-        # type state are not merged): keyed by the failing observable only
-        return "fail:%s:closure_side_effect" % where.split(":")[0]
-    cul = [c for c in CULPRITS if c in kinds]
-    if "closure" in cul and len(cul) > 1:
-        cul.remove("closure")
-    ops = sorted(k for k in A.node_kinds(small) if k in ("op/", "op+", "op-", "op*", "op<", "op>", "op<=", "op>="))
-    others = [k for k in kinds if k not in CULPRITS and not k.startswith("op")]
-    return "fail:%s:%s" % (where.split(":")[0], "+".join((cul + ops + others)[:2]) or "plain")
+    return "fail:%s:%s" % (where.split(":")[0], fc.cause(small))
 
 
 def run_case(ctx, case):
